@@ -22,7 +22,23 @@ def _sources():
     return src
 
 
-EXTRA_SOURCES = []   # other spec modules append callables returning a source dict
+def _from_gen(modname, listname, name, mcmodule, pkg, tier="dev"):
+    def f():
+        import importlib
+        m = importlib.import_module(modname)
+        for c in getattr(m, listname):
+            if tier in c["tiers"]:
+                return dict(name=name, mcmodule=mcmodule, pkg=pkg, consts=c["consts"], overrides=c.get("overrides"), harness=c["harness"][0])
+        raise RuntimeError("no %s config in %s.%s" % (tier, modname, listname))
+    return f
+
+
+EXTRA_SOURCES = [
+    _from_gen("spec_gov", "GOV_GEN", "gov", "GovMC", "gov"),
+    _from_gen("spec_migrate", "MIG_GEN", "migrate", "MigrateMC", "migrate"),
+    _from_gen("spec_shares", "SHARES_GEN", "shares", "SharesMC", "shares"),
+    _from_gen("spec_oraclelife", "OL_GEN", "oraclelife", "OracleLifeMC", "oraclelife"),
+]
 
 RUNS = [dict(GOMAXPROCS="1"), dict(GOMAXPROCS="4"), dict(GOMAXPROCS="16", GOGC="20")]
 
